@@ -199,6 +199,80 @@ func enumRule(c *Ctx, r *RuleResult, pkg, typeName string, accepted map[string]s
 	if res.Runs < len(vals)+1 {
 		r.Unresolved(fmt.Sprintf("table %s has %d rows, fewer than the %d values plus the reject row", spec.Name, res.Runs, len(vals)))
 	}
+	// an encoder of its own (MarshalText) writes every legal value as itself:
+	// encoding/xml's omitempty looks at the FIELD, not at the text returned,
+	// so "no text" for a non-empty value is written as an empty attribute
+	nt := p.NamedType(pkg, typeName)
+	if nt == nil {
+		return
+	}
+	if b, ok := nt.Underlying().(*types.Basic); !ok || b.Info()&types.IsString == 0 {
+		return
+	}
+	var mt *ssa.Function
+	for _, t := range []types.Type{nt, types.NewPointer(nt)} {
+		if sel := p.Prog.MethodSets.MethodSet(t).Lookup(nil, "MarshalText"); sel != nil && mt == nil {
+			if f := p.Prog.MethodValue(sel); f != nil && len(f.Blocks) > 0 && p.InModule(f) && f.Synthetic == "" {
+				mt = f
+			}
+		}
+	}
+	if mt == nil {
+		return
+	}
+	ptrRecv := false
+	if _, isPtr := mt.Params[0].Type().(*types.Pointer); isPtr {
+		ptrRecv = true
+	}
+	especs := DTXSpec{Name: typeName + ".MarshalText", Entry: mt,
+		Args: func(in *Interp) []Val {
+			if ptrRecv {
+				return []Val{Ptr{&Cell{V: SymStr{Key: "value"}, T: nt, Name: "recv"}}}
+			}
+			return []Val{SymStr{Key: "value"}}
+		},
+		Observe: func(in *Interp, res Val, pan *panicOutcome) string {
+			if pan != nil {
+				return "panic"
+			}
+			t, ok := res.(Tuple)
+			if !ok || len(t.E) != 2 {
+				return "?"
+			}
+			if !isNilVal(t.E[1]) {
+				return "error"
+			}
+			switch x := t.E[0].(type) {
+			case SymStr:
+				if k, ok := in.ch.strs.constOf("s:" + x.Key); ok {
+					return "text:" + k
+				}
+				return "text:<value>"
+			case Konst:
+				if x.V == nil {
+					return "text:"
+				}
+				if sv, ok := constStringVal(x); ok {
+					return "text:" + sv
+				}
+			case Slice:
+				if len(x.E) == 0 {
+					return "text:"
+				}
+			}
+			return "text:?" + keyOf(t.E[0])
+		},
+		Oracle: func(env *OracleEnv) ([]string, bool) {
+			for _, v := range vals {
+				if env.Eq(S("value"), K(v)) {
+					return []string{"text:" + v, "text:<value>"}, true
+				}
+			}
+			return nil, false // the unset value and illegal values: either way
+		}}
+	eres := runDTX(c, especs)
+	reportDTX(c, r, especs, eres, especs.Name)
+	r.Role("enumeration-encoder")
 }
 
 // ---------------------------------------------------------------------------
@@ -447,6 +521,19 @@ func c16Pairs(c *Ctx, pr *PropertyRun, prop string, keep func(what string) bool)
 				}
 			}
 			if name == "(net/http.Header).Get" && len(cc.Args) == 2 {
+				// an HTTP date read from a header goes through http.ParseTime
+				// (the three RFC 7231 forms, all GMT): time.Parse with RFC1123
+				// takes the zone field for an abbreviation and invents offsets
+				if k, ok := constString(cc.Args[1]); ok && (strings.EqualFold(k, "Last-Modified") || strings.EqualFold(k, "Date")) && (keep == nil || keep("HTTP date")) {
+					if call, isCall := site.(*ssa.Call); isCall {
+						r.Role("date-header-read")
+						ok := flowsIntoCall(call, "net/http.ParseTime", 4)
+						r.Ob(ok)
+						if !ok {
+							r.Violation("date-header-not-http-parsetime|"+fnKey(fn), p.instrPos(site), fnKey(fn)+" reads the "+k+" header without net/http.ParseTime: another parser accepts zone fields HTTP does not have (PST, +01) and reads them as a different instant instead of refusing them", nil)
+						}
+					}
+				}
 				if k, ok := constString(cc.Args[1]); ok && strings.EqualFold(k, "ETag") {
 					call, isCall := site.(*ssa.Call)
 					if !isCall {
